@@ -142,7 +142,7 @@ def gen_dst(rng, src, opts):
         if src_files and rng.chance(1, 4):
             # a stale entry whose name differs from a source name only in letter case (or by one character)
             base = rng.pick(src_files); d_, b_ = os.path.split(base)
-            v = rng.pick([b_.swapcase(), b_.upper(), b_.lower(), b_ + "~"])
+            v = rng.pick([b_.swapcase(), b_.upper(), b_.lower(), b_ + "~", b_ + ".sy.tmp", b_ + ".sy.tmp"])      # (… or is the working-file name of a source file: seeded change C06c)
             if v != b_ and (not d_ or dst.get(d_, {}).get("k") == "d"): rel = (d_ + "/" if d_ else "") + v
         if rel in dst or rel in src: continue
         k = rng.below(4)
@@ -725,7 +725,13 @@ def oracles(rep, focus, desc, rc, ev, bad, summ, real_events, real_errors, pre_s
             for rel, p in pre_dst.items():
                 if rel in src_all or any(rel.startswith(s + "/") for s in src_all if pre_src[s]["k"] != "d"): continue
                 if tree_fingerprint({rel: p}) != tree_fingerprint({rel: post_dst[rel]} if rel in post_dst else {}):
-                    rep.oracle_fail("C06/extra-touched-without-delete", f"destination extra {rel} removed or altered without --delete", desc)
+                    base = rel[:-7] if rel.endswith(".sy.tmp") else None
+                    if base is not None and base in pre_src and pre_src[base]["k"] == "f" and base in pre_dst:
+                        # the recorded residual collision of a deterministic working-file name (C05/user-file-named-like-temp),
+                        # seen through C06's first clause: its own signature, so that any OTHER touched extra is still a violation
+                        rep.oracle_fail("C06/extra-named-like-working-file-clobbered", f"destination extra {rel} is the working-file name of {base}, which was updated: removed / replaced without --delete", desc)
+                    else:
+                        rep.oracle_fail("C06/extra-touched-without-delete", f"destination extra {rel} removed or altered without --delete", desc)
         else:
             for rel in pre_dst:
                 if rel in src_all and rel not in post_dst and pre_src[rel]["k"] == pre_dst[rel]["k"]:
